@@ -19,7 +19,7 @@ Definition arms_with (sorted_required:bool) (set_is_array:bool) : list (string *
   ++ (if set_is_array then [("set", A CArray None (XItems ItemsAlways))] else [])
   ++ [ ("tuple", A CObject None (XProps ReqNotFieldOptional sorted_required)); ("ref", A CNewSchema None XRef) ].
 
-Definition tables_with (sorted:bool) (set_is_array:bool) : tables3 := {|
+Definition tables_with (sorted:bool) (set_is_array:bool) (repaired:bool) : tables3 := {|
   t_arms := arms_with sorted set_is_array;
   t_params_loop := if sorted then LoopSortedKeys else LoopMapOrder;
   t_responses_loop := if sorted then LoopSortedKeys else LoopMapOrder;
@@ -27,12 +27,16 @@ Definition tables_with (sorted:bool) (set_is_array:bool) : tables3 := {|
   t_param_required_negated := true;
   t_body_required_negated := true;
   t_param_in := [("header", "header"); ("path", "path"); ("query", "query"); ("body", "body")];
-  t_is_primitive := ["double"; "int64"; "float64"; "string"; "bool"; "date"; "datetime"]
+  t_is_primitive := ["double"; "int64"; "float64"; "string"; "bool"; "date"; "datetime"];
+  t_bare_status_kept := repaired;
+  t_responses_always := repaired;
+  t_content_guarded := repaired
 |}.
 
-(* the repaired source (fixes C19-3: sorts; C12-1: sets are arrays) and the source as it was found *)
-Definition fixed3 : tables3 := tables_with true true.
-Definition found3 : tables3 := tables_with false false.
+(* the repaired source (fixes C19-3: sorts; C12-1: sets are arrays; C12-3 responses always present; C12-4 `return 404`
+   keeps its status; C12-5 no content without a payload type) and the source as it was found *)
+Definition fixed3 : tables3 := tables_with true true true.
+Definition found3 : tables3 := tables_with false false false.
 
 Lemma tables3_current : tables3_of_source = fixed3.
 Proof. reflexivity. Qed.
